@@ -16,9 +16,11 @@ import time
 ROOT = os.path.dirname(os.path.dirname(os.path.abspath(__file__)))
 LEAN = os.path.join(ROOT, 'lean')
 DRIVER = os.path.join(LEAN, '.lake', 'build', 'bin', 'rxdriver')
-OUT = os.path.join(ROOT, 'out')
+# VERIF_OUT redirects everything a run writes (used only by tools_seeded_meta.py, which runs the checks against scratch
+# copies of /repo with a seeded change applied; the registered commands never set it)
+OUT = os.environ.get('VERIF_OUT') or os.path.join(ROOT, 'out')
 REPLAYS = os.path.join(OUT, 'replays')
-EVIDENCE = os.path.join(ROOT, 'evidence')
+EVIDENCE = os.path.join(OUT, 'evidence') if os.environ.get('VERIF_OUT') else os.path.join(ROOT, 'evidence')
 REPO = os.environ.get('RXSCI_SRC', '/repo')
 NPROC = int(os.environ.get('VERIF_JOBS', '16'))
 
